@@ -170,8 +170,8 @@ func (r *memReader) ReadAt(p []byte, off int64) (int, error) {
 	}
 	return n, nil
 }
-func (r *memReader) Close() error         { return nil }
-func (r *memReader) Len() (int64, error)  { return int64(len(r.data)), nil }
+func (r *memReader) Close() error        { return nil }
+func (r *memReader) Len() (int64, error) { return int64(len(r.data)), nil }
 func (r *memReader) GetNextRegionOffset(off int64, regionType filesystem.RegionType) (int64, error) {
 	return 0, io.EOF
 }
@@ -274,8 +274,8 @@ func (d *memDir) Chtimes(name path.Component, atime, mtime time.Time) error {
 	return nil
 }
 
-func (d *memDir) Sync() error                { return nil }
-func (d *memDir) IsWritable() (bool, error)  { return true, nil }
+func (d *memDir) Sync() error                                       { return nil }
+func (d *memDir) IsWritable() (bool, error)                         { return true, nil }
 func (d *memDir) IsWritableChild(name path.Component) (bool, error) { return true, nil }
 
 func (d *memDir) OpenReadWrite(name path.Component, creationMode filesystem.CreationMode) (filesystem.FileReadWriter, error) {
